@@ -21,13 +21,17 @@ RULE = (
     "decided by comparing d^2 and r^2 as Fractions; a pair whose |d^2-r^2| <= 1e-9 is asserted only "
     "when it is an exact tie of exactly representable numbers (inclusive), else don't-care; "
     "requested IoU == |A and B|/|A or B|. Point lists: the graph of a second call on the same "
-    "float64 array object is judged against the same point list (a sweep re-uses the array). Non-trivial = an empty frame between non-empty ones, or "
+    "float64 array object is judged against the same point list (a sweep re-uses the array). Part "
+    "'multiseg': 1-3 hypothesis stacks (h,t,..) with labels unique over hypotheses and time, combined "
+    "as a multi-hypothesis caller does (nodes_from_segmentation per hypothesis, add_cand_edges, "
+    "add_iou(multiseg=True)); every edge's IoU == overlap of the two masks, also across hypotheses "
+    "in both orders. Non-trivial = an empty frame between non-empty ones, or "
     "a pair at distance exactly r; distinct by (frame occupancy pattern, ndim, tie, r class)."
 )
 ASSUMPTIONS = ["scale[0] == 1 (documented dummy for the time axis)",
                "labels are unique across time (documented precondition of nodes_from_segmentation)"]
 REQUIRED_CLASSES = {t: ["c18:gap_between_nonempty", "c18:exact_tie", "c18:all_empty", "c18:iou",
-                        "part:points"] for t in ("quick", "thorough")}
+                        "part:points", "c18:multiseg_later_to_earlier_hypothesis"] for t in ("quick", "thorough")}
 
 DY = [0.5, 1.0, 2.0, 0.25, 4.0]
 
@@ -84,6 +88,30 @@ def seg_inputs(draw):
     return {"spatial": list(spatial), "frames": frames, "scale": scale, "rmode": rmode, "r": r,
             "pick": draw(st.integers(0, 10**6)), "iou": draw(st.booleans()),
             "dtype": dtype}
+
+
+@st.composite
+def multiseg_inputs(draw):
+    """Several hypothesis segmentations (h, t, y, x) with labels unique over hypotheses and time."""
+    spatial = draw(st.sampled_from([(6, 6), (5, 7), (3, 4, 4)]))
+    nh = draw(st.sampled_from([1, 2, 2, 3]))
+    nt = draw(st.integers(2, 4))
+    dtype = draw(st.sampled_from(["int32", "uint16", "int64", "uint64"]))
+    lab = draw(st.sampled_from([0, 0, 250, 40000]))
+    hyps = []
+    for _ in range(nh):
+        frames = []
+        for _t in range(nt):
+            dets = []
+            for box in _boxes_nonoverlapping(draw, spatial, draw(st.integers(0, 3))):
+                lab += draw(st.integers(1, 3))
+                dets.append({"label": lab, "box": box})
+            frames.append(dets)
+        hyps.append(frames)
+    rmode = draw(st.sampled_from(["dyadic", "huge", "huge"]))
+    r = 1e6 if rmode == "huge" else draw(st.integers(4, 40)) / 4.0
+    return {"spatial": list(spatial), "hyps": hyps, "r": r, "rmode": rmode, "dtype": dtype,
+            "given_frame_dict": draw(st.booleans())}
 
 
 @st.composite
@@ -277,6 +305,67 @@ def probe_points(inp) -> ProbeResult:
     return res
 
 
+def probe_multiseg(inp) -> ProbeResult:
+    """The building blocks as a multi-hypothesis caller combines them: nodes per hypothesis,
+    candidate edges over the union, add_iou(multiseg=True)."""
+    import networkx as nx
+    from funtracks.candidate_graph.iou import add_iou
+    from funtracks.candidate_graph.utils import add_cand_edges, nodes_from_segmentation
+
+    res = ProbeResult()
+    spatial = tuple(inp["spatial"])
+    nh, nt = len(inp["hyps"]), len(inp["hyps"][0])
+    seg = np.zeros((nh, nt, *spatial), dtype=inp["dtype"])
+    nodes, masks, hyp_of = {}, {}, {}
+    for h, frames in enumerate(inp["hyps"]):
+        for t, dets in enumerate(frames):
+            for d in dets:
+                lo, hi = d["box"]
+                seg[h, t][tuple(slice(a, b) for a, b in zip(lo, hi))] = d["label"]
+                m = seg[h, t] == d["label"]
+                idx = np.nonzero(m)
+                nodes[d["label"]] = (t, [Fraction(int(a.sum()), len(idx[0])) for a in idx])
+                masks[d["label"]] = m
+                hyp_of[d["label"]] = h
+    if not nodes:
+        res.discarded = "no_detection"
+        return res
+    src = seg.copy()
+    try:
+        g = nx.DiGraph()
+        nfd: dict = {}
+        for h in range(nh):
+            gh, fd = nodes_from_segmentation(seg[h])
+            g = nx.compose(g, gh)
+            for t, ns in fd.items():
+                nfd.setdefault(t, []).extend(ns)
+        add_cand_edges(g, inp["r"], nfd if inp["given_frame_dict"] else None)
+        add_iou(g, seg, nfd if inp["given_frame_dict"] else None, multiseg=True)
+    except Exception as e:  # noqa: BLE001
+        res.fail(f"exception:{type(e).__name__}", f"multi-hypothesis candidate graph raised {e!r}")
+        return res
+    if not np.array_equal(seg, src):
+        res.fail("input_modified", "segmentation modified")
+    exact = all(_dyadic(c) for _, p in nodes.values() for c in p) and _dyadic(Fraction(inp["r"]))
+    _compare(res, g, nodes, inp["r"], exact, "multiseg")
+    cross = False
+    for u, v in g.edges:
+        u_, v_ = (u.item() if isinstance(u, np.generic) else u), (v.item() if isinstance(v, np.generic) else v)
+        if u_ in masks and v_ in masks:
+            ref = refs.iou(masks[u_], masks[v_])
+            if hyp_of[u_] != hyp_of[v_] and ref > 0:
+                cross = True
+                if hyp_of[u_] > hyp_of[v_]:
+                    res.tags.append("c18:multiseg_later_to_earlier_hypothesis")
+            if not refs.close(g.edges[u, v].get("iou"), float(ref)):
+                res.fail("edge_iou" + (":cross_hypothesis" if hyp_of[u_] != hyp_of[v_] else ""),
+                         f"edge ({u_},{v_}) hypotheses {hyp_of[u_]}->{hyp_of[v_]}: iou {g.edges[u, v].get('iou')} != {float(ref)}")
+    if cross:
+        res.tags.append("c18:multiseg_cross_overlap")
+        res.nontrivial = ("multiseg", nh, nt, len(nodes), g.number_of_edges())
+    return res
+
+
 def _classify(res, present, nt, tie, inp, nsp, any_nodes):
     pat = _pattern(present, nt)
     gap = any(pat[i] == 0 and any(pat[:i]) and any(pat[i + 1:]) for i in range(len(pat)))
@@ -293,6 +382,7 @@ def _classify(res, present, nt, tie, inp, nsp, any_nodes):
 PARTS = [
     Part("seg", seg_inputs(), probe_seg, quick=5000, thorough=60000),
     Part("points", point_inputs(), probe_points, quick=5000, thorough=60000),
+    Part("multiseg", multiseg_inputs(), probe_multiseg, quick=1500, thorough=15000),
 ]
 
 
